@@ -1,7 +1,7 @@
 """C16 — no leaks, no out-of-bounds access, no lasting global side effects."""
 import re
 
-from ..facts import Broken, strip, const, walk, walk_eval, show
+from ..facts import Broken, strip, const, walk, walk_eval, show, macro_name
 from ..interp import path, Interp, NONZERO, av_const
 from .. import cfgq, own, memrules
 
@@ -260,6 +260,27 @@ def run(prog, chk):
             if c == "setlocale" and fn.name not in locale_fns:
                 r3.violation(fn.file, fn.name, n.get("l"), "setlocale-outside-formatters:%s" % fn.name, "setlocale() called in %s" % fn.name)
     r3.ok("no-fenv-env-signal-calls", "none of %s is called anywhere" % ", ".join(x for x in FORBIDDEN_GLOBAL_STATE if x != "setlocale"))
+    # one category throughout: the name returned by a query for one category is only valid to restore that same category
+    # (for LC_ALL glibc returns a composite string that setlocale(LC_NUMERIC, ..) rejects)
+    cats = {}
+    for fn in prog.all_functions():
+        for (b, i, r, n) in fn.calls_to("setlocale"):
+            c = const(n["args"][0]) if n.get("args") else None
+            cats.setdefault(c, []).append((fn, n))
+    if len(cats) > 1:
+        major = max(cats, key=lambda c: len(cats[c]))
+        for c, sites in cats.items():
+            if c == major:
+                continue
+            for (fn, n) in sites:
+                r3.violation(fn.file, fn.name, n.get("l"), "setlocale-category-mismatch:%s" % fn.name,
+                             "setlocale at L%s uses category %s while the other %d calls of the save / switch / restore protocol use %s: "
+                             "a locale name obtained for one category is not in general accepted for another, so the restore "
+                             "fails silently and the numeric locale stays \"C\"" % (n.get("l"), macro_name(n["args"][0]) or c,
+                                                                                  len(cats[major]), macro_name(cats[major][0][1]["args"][0]) or major))
+    elif cats:
+        r3.ok("setlocale-one-category", "all %d calls use %s" % (sum(len(v) for v in cats.values()),
+                                                                  macro_name(next(iter(cats.values()))[0][1]["args"][0]) or next(iter(cats))))
     for fname in sorted(set(SETLOCALE_ALLOWED_IN) | locale_fns):
         fn = prog.fn(fname)
         calls = fn.calls_to("setlocale")
@@ -367,7 +388,6 @@ def run(prog, chk):
     r5 = chk.rule("R5-kind-after-fields", "a value's kind is stored only after the fields its clean function reads for that kind "
                   "have been stored (otherwise a failure ladder frees uninitialised pointers)", primary=False, floor=3)
     KIND_FIELDS = {"CIF_NUMB_KIND": ("text", "digits", "su_digits"), "CIF_CHAR_KIND": ("text",)}
-    from ..facts import macro_name
     n_kind = 0
     for fn in prog.all_functions():
         for (b, i, r, n) in fn.eval_sites("asg"):
@@ -461,6 +481,11 @@ def run(prog, chk):
                   "definition (all units)", primary=False, floor=200)
     if memrules.declaration_parameter_agreement(prog, r9) < 200:
         raise Broken("fewer than 200 declaration/definition pairs")
+
+    r11 = chk.rule("R11-hash-iteration-intact", "no HASH_ITER body writes the iteration's look-ahead variable (tear-down loops free "
+                   "every entry exactly once)", primary=False, floor=8)
+    if memrules.hash_iter_lookahead(prog, r11) < 8:
+        raise Broken("fewer than 8 HASH_ITER loops found")
 
     r10 = chk.rule("R10-capacity-is-allocation-count", "a non-constant `capacity` stored by a function that allocates is the element "
                    "count of a block it allocates (lists, serialisation buffers): insertions trust it when deciding whether to grow",
